@@ -75,9 +75,12 @@ type c10ENI struct {
 	Tags                                                              []ecs.Tag
 	Created                                                           string // exactly as served to the code
 	DeviceIndex                                                       int
-	ByCtl                                                             bool // created through CreateNetworkInterface by the code under test
-	CreatedStep                                                       int  // harness step in which it was created
-	Slot                                                              int
+	// DeleteOnRelease: ECS deletes the interface together with the instance it is attached to when
+	// that instance is released (option DeleteENIOnECSRelease of the create call; default true)
+	DeleteOnRelease bool
+	ByCtl           bool // created through CreateNetworkInterface by the code under test
+	CreatedStep     int  // harness step in which it was created
+	Slot            int
 }
 
 type c10Call struct {
@@ -314,6 +317,7 @@ func (c *c10Cloud) CreateNetworkInterface(ctx context.Context, opts ...aliyunCli
 		SG:      append([]string(nil), no.SecurityGroupIDs...),
 		Created: time.Now().Add(-c.createAge).UTC().Format(c10Layout),
 		ByCtl:   true, CreatedStep: c.step, Slot: slot,
+		DeleteOnRelease: no.DeleteENIOnECSRelease == nil || *no.DeleteENIOnECSRelease,
 	}
 	if no.IPv6Count > 0 {
 		e.IPv6 = fmt.Sprintf("fd00::%x", 0x100+c.ipSeq)
@@ -534,4 +538,32 @@ func (c *c10Cloud) DescribeInstanceTypes(ctx context.Context, types []string) ([
 // without a nil dereference
 func (c *c10Cloud) AssignPrivateIPAddress(ctx context.Context, opts ...aliyunClient.AssignPrivateIPAddressOption) ([]netip.Addr, error) {
 	return nil, fmt.Errorf("sim: not modelled")
+}
+
+// releaseInstance is the environment event "the ECS instance is released" (scale-in, spot reclaim):
+// interfaces attached to it that were created with DeleteOnRelease are deleted by the cloud, the
+// others are detached and become Available. Trunk interfaces belong to the instance and are left
+// to the replacement instance that registers under the same node name (and, in this model, the
+// same instance id).
+func (c *c10Cloud) releaseInstance(inst string) (deleted, detached []string) {
+	c.mu.Lock()
+	defer c.mu.Unlock()
+	for _, id := range c.order {
+		e, ok := c.enis[id]
+		if !ok || e.Instance != inst || e.Type == aliyunClient.ENITypeTrunk || e.Type == aliyunClient.ENITypePrimary {
+			continue
+		}
+		if e.DeleteOnRelease {
+			delete(c.enis, id)
+			deleted = append(deleted, id)
+		} else {
+			e.Status, e.Instance, e.Trunk, e.DeviceIndex = aliyunClient.ENIStatusAvailable, "", "", 0
+			if e.Type == aliyunClient.ENITypeMember {
+				e.Type = aliyunClient.ENITypeSecondary
+			}
+			detached = append(detached, id)
+		}
+		c.mutations++
+	}
+	return deleted, detached
 }
